@@ -970,3 +970,107 @@ pub fn deep_xml_inputs(scale: usize) -> Vec<(String, String)> {
         ("xml-cdata-long".into(), format!("<a><![CDATA[{}", rep("]]", n))),
     ]
 }
+
+// ---- customizable <select> documents (selectedcontent mirroring) ---------------------------------
+
+fn select_option_content(rng: &mut Rng, out: &mut String) {
+    let n = rng.below(4);
+    for _ in 0..n {
+        push_pick(
+            rng,
+            out,
+            &[
+                "x",
+                "text ",
+                "<b>y</b>",
+                "<i>a<u>b</u></i>",
+                "<div><template>a<i>b</i></template></div>",
+                "<span><span><template><p>t</p></template>deep</span></span>",
+                "<template>t</template>",
+                "<selectedcontent>zz</selectedcontent>",
+                "<selectedcontent></selectedcontent>",
+                "<svg><circle r=1 /></svg>",
+                "<img alt=i>",
+                "<!-- c -->",
+                "<span class=k>s</span>",
+            ],
+        );
+    }
+}
+
+fn select_item(rng: &mut Rng, out: &mut String, depth: usize) {
+    match rng.below(12) {
+        0..=5 => {
+            out.push_str("<option");
+            if rng.chance(1, 2) {
+                out.push_str(" selected");
+            }
+            if rng.chance(1, 6) {
+                out.push_str(" value=v");
+            }
+            out.push('>');
+            select_option_content(rng, out);
+            if !rng.chance(1, 5) {
+                out.push_str("</option>");
+            }
+        },
+        6 if depth < 3 => {
+            out.push_str("<optgroup label=g>");
+            for _ in 0..rng.range(1, 2) {
+                select_item(rng, out, depth + 1);
+            }
+            if !rng.chance(1, 4) {
+                out.push_str("</optgroup>");
+            }
+        },
+        7 if depth < 3 => {
+            out.push_str("<div>");
+            for _ in 0..rng.range(1, 2) {
+                select_item(rng, out, depth + 1);
+            }
+            out.push_str("</div>");
+        },
+        8 => out.push_str("<hr>"),
+        9 if depth < 2 => {
+            // two optgroup ancestors separated by another element: no nearest select
+            out.push_str("<optgroup><div><optgroup>");
+            select_item(rng, out, depth + 2);
+            out.push_str("</optgroup></div></optgroup>");
+        },
+        10 if depth < 3 => {
+            out.push_str("<datalist>");
+            select_item(rng, out, depth + 1);
+            out.push_str("</datalist>");
+        },
+        _ => push_pick(rng, out, &["t", " ", "<span>w</span>", "<!-- x -->"]),
+    }
+}
+
+/// `<select>` with a `selectedcontent` target (in a button, bare, inside an option, several, none),
+/// options - selected or not, closed explicitly or not - whose content includes nested elements,
+/// templates at depth 1..3 and nested selectedcontent, and optgroup / div / datalist / hr wrappers.
+pub fn select_doc(rng: &mut Rng) -> String {
+    let mut out = String::new();
+    push_pick(rng, &mut out, &["", "<!DOCTYPE html>", "<p>before", "<div>"]);
+    push_pick(rng, &mut out, &["<select>", "<select>", "<select>", "<select multiple>", "<select id=s size=1>"]);
+    push_pick(
+        rng,
+        &mut out,
+        &[
+            "<button><selectedcontent></selectedcontent></button>",
+            "<button><selectedcontent></selectedcontent></button>",
+            "<selectedcontent>old<i>x</i></selectedcontent>",
+            "<button><selectedcontent>t</selectedcontent></button><selectedcontent>second</selectedcontent>",
+            "<button><span><selectedcontent>a</selectedcontent></span></button>",
+            "",
+        ],
+    );
+    for _ in 0..rng.range(1, 5) {
+        select_item(rng, &mut out, 0);
+    }
+    if !rng.chance(1, 4) {
+        out.push_str("</select>");
+    }
+    push_pick(rng, &mut out, &["", "after", "<select><option selected>2</option></select>"]);
+    out
+}
